@@ -38,6 +38,17 @@ CHECKS["C16"] = dict(
          "event) is not compared; with an event-free series nan or the formula value are both accepted.",
     ref="6/C16")
 
+CHECKS["C07"] = dict(
+    technique="TLA+ definitions (Defs_Recurrence, Defs_Lines) + TLC-enumerated series/modes replayed on all six recurrence classes + TLC trace validation (Val_C07)",
+    text="TLC enumerates all scalar series over {0,1,2} up to the cfg length with embeddings, the three metrics, every construction mode "
+         "(fixed threshold incl. d=eps ties, global rate, local rate, adaptive size), missing masks, 2-D series, unequal-length pairs and "
+         "lagged equal-length pairs (Gen_C07); each is replayed on RecurrencePlot/RecurrenceNetwork, CrossRecurrencePlot/InterSystem"
+         "RecurrenceNetwork, JointRecurrencePlot/JointRecurrenceNetwork and TLC decides MatrixDef (order-statistic thresholds), Sizes, "
+         "Composition, NetDef, RateDef and applicability of every RQA method (run-length counts of the reported matrix).",
+    note="Integer-valued data (exact in float32); euclidean distances compared through squares; adaptive variant only by its stated "
+         "guarantee (symmetric, >= m neighbours); threshold_std and normalize are not driven.",
+    ref="6/C07")
+
 NOT_APPLICABLE = {
     "C20": "memory safety of compiled kernels is a property of concrete addresses, not of abstract state a TLA+ "
            "specification maintains; nothing binds a PlusCal transcription of index arithmetic to the compiled code "
